@@ -33,7 +33,7 @@ func c17Cells(tier string) []Cell {
 
 	for _, iv := range []int{0, 1} {
 		for _, cb := range []int{0, 1, 3} {
-			for first := 0; first < 5; first++ {
+			for first := 0; first < 7; first++ {
 				cells = append(cells, Cell{ID: c17Cell{Mode: "seq", Interval: iv, Callbacks: cb, First: first}.id()})
 			}
 
@@ -136,12 +136,14 @@ func c17Interval(cc c17Cell) time.Duration {
 
 func c17Seq(cc c17Cell, env *Env) CellResult {
 	iv := c17Interval(cc)
-	ops := []string{"Invalidate", "Advance(I-1ns)", "Advance(I)", "Advance(I+1ns)", "Advance(1ns)"}
+	ops := []string{"Invalidate", "Advance(I-1ns)", "Advance(I)", "Advance(I+1ns)", "Advance(1ns)", "Callbacks=nil", "Callbacks=restored"}
 
 	type st struct {
 		h        *c17h
 		last     time.Time
 		accepted bool // at least one accepted call so far
+		cleared  bool // Callbacks currently nil
+		saved    []func(ctx context.Context)
 	}
 
 	depth := 5
@@ -157,7 +159,11 @@ func c17Seq(cc c17Cell, env *Env) CellResult {
 			got := s.h.callbacksOf(id)
 
 			switch {
-			case cc.Callbacks == 0:
+			case cc.Callbacks == 0 || s.cleared:
+				if got != "" {
+					return fmt.Sprintf("call without registered callbacks ran callbacks [%s]", got), false
+				}
+
 				if !errors.Is(err, cache.ErrNothingToInvalidate) {
 					return fmt.Sprintf("no callbacks registered: Invalidate returned %v, want ErrNothingToInvalidate", err), false
 				}
@@ -194,6 +200,14 @@ func c17Seq(cc c17Cell, env *Env) CellResult {
 			vclock.Advance(iv + time.Nanosecond)
 		case 4:
 			vclock.Advance(time.Nanosecond)
+		case 5:
+			if !s.cleared {
+				s.saved, s.h.inv.Callbacks, s.cleared = s.h.inv.Callbacks, nil, true
+			}
+		case 6:
+			if s.cleared {
+				s.h.inv.Callbacks, s.cleared = s.saved, false
+			}
 		}
 
 		return "ok", true
@@ -213,7 +227,7 @@ func c17Seq(cc c17Cell, env *Env) CellResult {
 		Canon: func(s interface{}) string {
 			x := s.(*st)
 			if !x.accepted {
-				return "never"
+				return fmt.Sprint("never", x.cleared)
 			}
 
 			d := vclock.NowQuiet().Sub(x.last)
@@ -221,7 +235,7 @@ func c17Seq(cc c17Cell, env *Env) CellResult {
 				d = 2*iv + 2 // beyond the interval all futures coincide
 			}
 
-			return fmt.Sprint(d)
+			return fmt.Sprint(d, x.cleared)
 		},
 	}
 
@@ -424,7 +438,7 @@ func init() {
 	Register(&Prop{
 		ID: "C17", Title: "Invalidator runs all callbacks, at most once per SkipInterval",
 		Cells: c17Cells, Run: c17Run,
-		Rule: "(seq) BFS over sequences of {Invalidate, Advance I-1ns, I, I+1ns, 1ns} for SkipInterval {default 15s, 1s} x callbacks {none,1,3} against the model accepted <=> now-lastAccepted >= I; " +
+		Rule: "(seq) BFS over sequences of {Invalidate, Advance I-1ns, I, I+1ns, 1ns, Callbacks=nil, Callbacks=restored} for SkipInterval {default 15s, 1s} x callbacks {none,1,3} against the model accepted <=> now-lastAccepted >= I; " +
 			"(conc) 2-3 threads x 1-2 Invalidate calls plus a clock thread advancing by I-1ns or I, callbacks are harness functions with a scheduling point inside, all schedules within the bound: " +
 			"no overlap, every accepted call runs every callback once in order before it returns, rejected calls run none, number of accepted calls bounded by the elapsed virtual time",
 		Assumptions: []string{
